@@ -226,6 +226,11 @@ class TimeStruct:
     def __init__(self, vals):
         self.vals = dict(zip(self.FIELDS, vals))
 
+    def __getattr__(self, name):  # contracts read tm_* directly in both modes
+        if name.startswith('tm_') and name in self.vals:
+            return self.vals[name]
+        raise AttributeError(name)
+
     def _pyvc_getattr(self, it, name):
         if name in self.vals:
             return self.vals[name]
@@ -313,6 +318,16 @@ def abstract_calendar(ctx, days):
 
 
 def broken_down(it, secs):
+    if is_sym(secs):
+        cache = it.ctx.ghost.setdefault('broken_down_cache', {})
+        k = secs.get_id()
+        if k not in cache:
+            cache[k] = (secs, _broken_down(it, secs))
+        return cache[k][1]
+    return _broken_down(it, secs)
+
+
+def _broken_down(it, secs):
     if not is_sym(secs):
         y, m, d, hh, mm, ss, wd, yd = civil_from_secs(DivEnv(None), secs)
         return TimeStruct((y, m, d, hh, mm, ss, wd, yd, 0))
@@ -978,6 +993,10 @@ def b_hasattr(it, o, name):
         raise
 
 
+def b_setattr(it, o, name, v):
+    it.setattr(o, name, v)
+
+
 def b_getattr(it, o, name, *default):
     from .interp import PyExc
     try:
@@ -1272,7 +1291,7 @@ def install(loader):
     def reg(name, fn, wants=True):
         B[name] = Builtin(name, fn, wants_interp=wants)
     for name, fn in [('len', b_len), ('min', b_min), ('max', b_max), ('isinstance', b_isinstance),
-                     ('hasattr', b_hasattr), ('getattr', b_getattr), ('ord', b_ord), ('range', b_range), ('sum', b_sum),
+                     ('hasattr', b_hasattr), ('getattr', b_getattr), ('setattr', b_setattr), ('ord', b_ord), ('range', b_range), ('sum', b_sum),
                      ('abs', b_abs), ('divmod', b_divmod), ('sorted', b_sorted), ('any', b_any),
                      ('all', b_all), ('format', b_format), ('open', b_open), ('type', b_type), ('print', b_print), ('id', b_id),
                      ('chr', b_chr), ('hex', b_hex), ('repr', b_repr), ('enumerate', b_enumerate), ('zip', b_zip),
